@@ -73,9 +73,8 @@ class AbstractDeme(ABC):
 
     @property
     def centroid(self) -> np.ndarray:
-        if self._centroid is None:
-            self._centroid = compute_centroid(self.current_population)
-        return self._centroid
+        # The population changes with every metaepoch: always compute the centroid of the current one.
+        return compute_centroid(self.current_population)
 
     @property
     def history(self) -> list[list[Individual]]:
